@@ -346,7 +346,8 @@ class MethodTx(FuncTx):
         sig = ' '.join('(%s : %s)' % (ident(p), ty(self.params[p])) for p in self.param_order)
         text.append('/-- `%s` (%s), statement by statement -/' % (self.name, self.spec['path']))
         text.append('def py_%s %s : %s Unit := do' % (self.spec['lean_full'], sig, self.M))
-        text.append(self.ind0 + 'let mut v : %s.Vars := {  }' % self.name)
+        init = ', '.join('%s := %s' % (ident(q), ident(q)) for q in self.rebound)     # a parameter the body rebinds starts as the argument
+        text.append(self.ind0 + 'let mut v : %s.Vars := { %s }' % (self.name, init))
         text += out
         return '\n'.join(text) + '\n'
 
